@@ -113,7 +113,7 @@ def jsonable(x, depth=0):
 # ------------------------------------------------------------------------------------------------
 # known findings
 
-_FINDING_RE = re.compile(r'^finding:\s+property=(\S+)\s+sig=(\S+)\s*(?:where=(\S+)\s*)?(.*)$')
+_FINDING_RE = re.compile(r'^finding:\s+property=(\S+)\s+sig=("[^"]+"|\S+)\s*(?:where=(\S+)\s*)?(.*)$')
 
 
 def load_known(path=None):
@@ -125,8 +125,16 @@ def load_known(path=None):
         line = line.strip()
         m = _FINDING_RE.match(line)
         if m:
-            out.append({'property': m.group(1), 'sig': m.group(2), 'where': m.group(3), 'text': m.group(4)})
+            out.append({'property': m.group(1), 'sig': m.group(2).strip('"'), 'where': m.group(3),
+                        'text': m.group(4)})
     return out
+
+
+def vkey(sig, tags=()):
+    """Violations are grouped by signature *and* tag set, so that a `where=<tag>` clause of a known finding narrows it
+    to the tagged input class: occurrences of the same signature outside that class form another group."""
+    tags = sorted(set(tags))
+    return sig if not tags else sig + ' #' + ','.join(tags)
 
 
 # ------------------------------------------------------------------------------------------------
@@ -151,13 +159,19 @@ class Context:
     def violation(self, sig, case, expected=None, observed=None, detail=None, tags=()):
         """Record one violating case.  Violations are grouped by signature; the first (shortest, as the
         explorers go simplest-first) case of each signature is kept as the replay artefact."""
-        rec = self.viol.get(sig)
+        key = vkey(sig, tags)
+        rec = self.viol.get(key)
         if rec is None:
-            self.viol[sig] = {'sig': sig, 'case': case, 'expected': expected, 'observed': observed,
+            self.viol[key] = {'sig': sig, 'case': case, 'expected': expected, 'observed': observed,
                               'detail': detail, 'tags': sorted(tags), 'occurrences': 1}
         else:
             rec['occurrences'] += 1
-            rec['tags'] = sorted(set(rec['tags']) | set(tags))
+
+    def add_occurrences(self, sig, n, tags=()):
+        self.viol[vkey(sig, tags)]['occurrences'] += n
+
+    def known_match(self, sig, tags=()):
+        return self._known_match({'sig': sig, 'tags': sorted(tags)})
 
     def merge_violations(self, recs):
         """recs: iterable of (sig, case, expected, observed, detail[, tags]) tuples from workers."""
@@ -192,8 +206,9 @@ class Context:
         n_new = 0
         lines = []
         known_hit = []
-        for sig in sorted(self.viol):
-            rec = self.viol[sig]
+        for key in sorted(self.viol):
+            rec = self.viol[key]
+            sig = rec['sig']
             k = self._known_match(rec)
             if k is not None:
                 known_hit.append(sig)
@@ -201,7 +216,7 @@ class Context:
                              % (self.prop, sig, k['text'], rec['occurrences']))
                 continue
             n_new += 1
-            h = hashlib.sha1(sig.encode()).hexdigest()[:10]
+            h = hashlib.sha1(key.encode()).hexdigest()[:10]
             path = os.path.join(VERIF, 'replays', '%s-%s.json' % (self.prop, h))
             doc = {'property': self.prop, 'signature': sig, 'tier': self.tier, 'seed': self.seed,
                    'case': jsonable(rec['case']), 'expected': jsonable(rec['expected']),
